@@ -11,7 +11,7 @@
  *
  * A call outside the API precondition is not issued and prints `rejected` (same rule in the model):
  *   init   : N < 1, U < 1, N*U above the buffer cap, or a zone already exists
- *   malloc : no zone; the int unit count computed by the code, (int)((SIZE+U-1)/U), is negative
+ *   malloc : no zone
  *   free   : no zone; OFF not a multiple of U (assert in the code); OFF inside the table, not the
  *            base of a live allocation (the harness keeps its own ledger of returned pointers) and the
  *            table entry there is not marked EMPTY (the code would then free garbage).
@@ -99,8 +99,6 @@ int main(void)
             printf("%s\n", zone ? "ok" : "failed");
         } else if( sscanf(line, "malloc %llu", &sz) == 1 ) {
             if( !zone ) { printf("rejected\n"); continue; }
-            int nb = (int)(((size_t)sz + (size_t)U - 1) / (size_t)U);   /* the code's own computation */
-            if( nb < 0 ) { printf("rejected\n"); continue; }
             char *p = zone_malloc(zone, (size_t)sz);
             if( NULL == p ) printf("null");
             else {
